@@ -6,7 +6,7 @@ set -u
 d=$(realpath "$1"); name=$(basename "$d"); wt=/tmp/cm_$name
 git -C /repo worktree remove --force $wt 2>/dev/null
 git -C /repo worktree add --detach $wt HEAD -q || exit 2
-export CARGO_TARGET_DIR=/tmp/cm_target
+export CARGO_TARGET_DIR=${CM_TARGET:-/tmp/cm_target}
 cd $wt
 {
 echo "== base: $(git rev-parse --short HEAD)"
